@@ -150,7 +150,13 @@ def same_type_sub(chk, rng, w, wid, plan=None):
              {"k": "sum0", "e": ["sum", ["l", []]]},
              {"k": "sum1", "e": ["sum", ["l", [V("b")]]]},
              {"k": "sumstart", "e": ["c", ["g", "quantity:sum"],
-                                     [["l", [V("b"), V("c")]], V("a")]]}]
+                                     [["l", [V("b"), V("c")]], V("a")]]},
+             # augmented assignment computes the same sum / difference ...
+             {"k": "a+=b", "e": OP("+=", V("a"), V("b"))},
+             {"k": "a-=b", "e": OP("-=", V("a"), V("b"))},
+             # ... and after all of the above the operands are what they were
+             {"k": "a'", "e": V("a")}, {"k": "b'", "e": V("b")},
+             {"k": "c'", "e": V("c")}]
     quantized = t.quantum is not None
 
     def judge(obs):
@@ -199,6 +205,14 @@ def same_type_sub(chk, rng, w, wid, plan=None):
         expect("sum", ra + rb + rc, sa)
         expect("sum1", rb, sb)
         expect("sumstart", ra + rb + rc, sa)
+        expect("a+=b", ra + rb, sa)
+        expect("a-=b", ra - rb, sa)
+        for nm, x in (("a", a), ("b", b), ("c", c)):
+            after = obs.get(nm + "'", {})
+            if after.get("k") != "Q" or after["u"] != x["u"] or \
+                    after["a"] != x["a"] or after["t"] != x["t"]:
+                bad.append("operand %s is %s after the operations, was %s" %
+                           (nm, brief(after), brief(x)))
         if not quantized:
             expect("k(a+b)", k * (ra + rb), sa)
             expect("ka+kb", k * (ra + rb), sa)
